@@ -36,18 +36,335 @@ Section TlBisim.
     | _ => False
     end.
 
+  (* ------------------------------------------------------------------------- *)
+  (* helpers                                                                    *)
+  (* ------------------------------------------------------------------------- *)
+
+  Lemma tlb_filter_remk : forall (A : Type) (p : K * A -> bool) k (l : list (K * A)),
+      filter p (remk k l) = remk k (filter p l).
+  Proof.
+    intros A p k l. induction l as [|[k0 a0] l IH]; simpl; [reflexivity|].
+    destruct (eqb k k0) eqn:E.
+    - destruct (p (k0, a0)); simpl; [rewrite E|]; exact IH.
+    - simpl. destruct (p (k0, a0)); simpl; [rewrite E; f_equal|]; exact IH.
+  Qed.
+
+  Lemma tlb_filter_len : forall (A : Type) (p : A -> bool) l, length (filter p l) <= length l.
+  Proof.
+    intros A p l. induction l as [|a l IH]; simpl; [lia|]. destruct (p a); simpl; lia.
+  Qed.
+
+  Lemma tlb_filter_full : forall (A : Type) (p : A -> bool) l,
+      length l <= length (filter p l) -> filter p l = l.
+  Proof.
+    intros A p l. induction l as [|a l IH]; simpl; intros Hlen; [reflexivity|].
+    destruct (p a); simpl in Hlen.
+    - f_equal. apply IH. lia.
+    - pose proof (tlb_filter_len A p l). lia.
+  Qed.
+
+  Lemma tlb_filter_later : forall now now' (l : list (K * (V * Z))), (now <= now')%Z ->
+      filter (fun x => (now' <? snd (snd x))%Z) (filter (fun x => (now <? snd (snd x))%Z) l) =
+      filter (fun x => (now' <? snd (snd x))%Z) l.
+  Proof.
+    intros now now' l Hle. induction l as [|[k [v e]] l IH]; simpl; [reflexivity|].
+    destruct (Z.ltb_spec now e) as [H1|H1]; simpl.
+    - destruct (Z.ltb_spec now' e) as [H2|H2]; [f_equal|]; exact IH.
+    - destruct (Z.ltb_spec now' e) as [H2|H2]; [lia|exact IH].
+  Qed.
+
+  (* the live entry filed under k, if any *)
+  Definition tl_livek (now : Z) (s : tl K V) (k : K) : option (V * Z) :=
+    match assoc k (tl_lru s) with
+    | Some (v, e) => if (now <? e)%Z then Some (v, e) else None
+    | None => None
+    end.
+
+  Lemma tlb_core_assoc : forall u t now (s : tl K V) k, tl_inv u t s ->
+      assoc k (tl_core now s) = tl_livek now s k.
+  Proof.
+    intros u t now s k (_ & _ & Hn & _). unfold tl_core, tl_livek.
+    rewrite tl_assoc_filter by exact Hn.
+    destruct (assoc k (tl_lru s)) as [[v e]|]; reflexivity.
+  Qed.
+
+  Lemma tlb_sim_livek : forall u t now (s1 s2 : tl K V) k, tl_sim u t now s1 s2 ->
+      tl_livek now s1 k = tl_livek now s2 k.
+  Proof.
+    intros u t now s1 s2 k (Hi1 & Hi2 & _ & _ & Hcore).
+    rewrite <- (tlb_core_assoc u t now s1 k Hi1), <- (tlb_core_assoc u t now s2 k Hi2).
+    now rewrite Hcore.
+  Qed.
+
+  Lemma tlb_sim_sym : forall u t now (s1 s2 : tl K V), tl_sim u t now s1 s2 -> tl_sim u t now s2 s1.
+  Proof.
+    intros u t now s1 s2 (Hi1 & Hi2 & Hc & Ht & Hcore). unfold tl_sim. tl_splits; auto.
+  Qed.
+
+  Lemma tlb_core_not_live : forall u t now (s : tl K V) k, tl_inv u t s ->
+      tl_livek now s k = None -> remk k (tl_core now s) = tl_core now s.
+  Proof.
+    intros u t now s k Hi Hl. apply tl_remk_absent. now rewrite (tlb_core_assoc u t now s k Hi).
+  Qed.
+
+  Lemma tlb_core_erase_key : forall now (s : tl K V) k,
+      tl_core now (tl_erase_key s k) = remk k (tl_core now s).
+  Proof. intros now s k. unfold tl_core. simpl. apply tlb_filter_remk. Qed.
+
+  (* a full state without expired entries determines the other state's store *)
+  Lemma tlb_full_live_eq : forall u t now (s1 s2 : tl K V),
+      tl_sim u t now s1 s2 -> length (tl_lru s1) = tl_cap s1 ->
+      (forall k v e, assoc k (tl_lru s1) = Some (v, e) -> (now < e)%Z) ->
+      tl_lru s2 = tl_lru s1.
+  Proof.
+    intros u t now s1 s2 (Hi1 & Hi2 & Hc & _ & Hcore) Hlen Hnd.
+    assert (E1 : tl_core now s1 = tl_lru s1).
+    { apply tl_filter_all. intros [k [v e]] Hin. simpl.
+      destruct Hi1 as (_ & _ & Hn & _). apply tl_in_assoc_nodup in Hin; [|exact Hn].
+      apply Hnd in Hin. destruct (Z.ltb_spec now e); [reflexivity|lia]. }
+    assert (E2 : tl_core now s2 = tl_lru s2).
+    { apply tlb_filter_full. fold (tl_core now s2). rewrite <- Hcore, E1, Hlen, Hc.
+      destruct Hi2 as (_ & _ & _ & Hl & _). exact Hl. }
+    congruence.
+  Qed.
+
+  (* ---- insert ---- *)
+  Lemma tlb_ins_result : forall (s : tl K V) k v a now e s' b,
+      tl_ins s k v a now e = (s', b) ->
+      b = match assoc k (tl_lru s) with
+          | Some (_, e0) => a_upd a || (a_ins a && (e0 <=? now)%Z)
+          | None => a_ins a
+          end.
+  Proof.
+    intros s k v a now e s' b Hins. unfold tl_ins in Hins.
+    destruct (assoc k (tl_lru s)) as [[v0 e0]|].
+    - destruct (a_upd a); [inversion Hins; reflexivity|].
+      destruct (a_ins a); [|inversion Hins; reflexivity].
+      destruct (e0 <=? now)%Z; inversion Hins; reflexivity.
+    - destruct (a_ins a); inversion Hins; reflexivity.
+  Qed.
+
+  Lemma tlb_ins_false : forall (s : tl K V) k v a now e s',
+      tl_ins s k v a now e = (s', false) -> s' = s.
+  Proof.
+    intros s k v a now e s' Hins. unfold tl_ins in Hins.
+    destruct (assoc k (tl_lru s)) as [[v0 e0]|].
+    - destruct (a_upd a); [inversion Hins|].
+      destruct (a_ins a); [|inversion Hins; reflexivity].
+      destruct (e0 <=? now)%Z; inversion Hins; reflexivity.
+    - destruct (a_ins a); inversion Hins; reflexivity.
+  Qed.
+
+  (* a successful insert either keeps the live core (moving/adding k at the recent end) or
+     it evicts from a full store in which nothing is expired *)
+  Lemma tlb_ins_true : forall u t (s : tl K V) k v a now e s', tl_inv u t s ->
+      tl_ins s k v a now e = (s', true) ->
+      tl_core now s' =
+        remk k (tl_core now s) ++ filter (fun x => (now <? snd (snd x))%Z) [(k, (v, e))]
+      \/ (assoc k (tl_lru s) = None /\ length (tl_lru s) = tl_cap s /\
+          forall k1 v1 e1, assoc k1 (tl_lru s) = Some (v1, e1) -> (now < e1)%Z).
+  Proof.
+    intros u t s k v a now e s' Hi Hins.
+    pose proof Hi as (_ & _ & Hn & _).
+    destruct (tl_ins_cases _ _ _ _ _ _ _ _ _ _ Hi Hins)
+      as [(Hb & _)|[(_ & Hs' & _)|[(_ & Ha & _ & _ & Hs')|
+          (_ & Ha & _ & Hlen & kv & vv & ev & Hs' & Hkv & Hor)]]].
+    - discriminate.
+    - left. subst s'. unfold tl_core, tl_update, tl_with. cbn [tl_lru].
+      rewrite filter_app, tlb_filter_remk. reflexivity.
+    - left. subst s'. unfold tl_core, tl_with. cbn [tl_lru]. rewrite filter_app. f_equal.
+      symmetry. apply tl_remk_absent. rewrite tl_assoc_filter by exact Hn. now rewrite Ha.
+    - destruct Hor as [Hle|[_ Hnd]].
+      + left. subst s'. unfold tl_core, tl_with. cbn [tl_lru]. rewrite filter_app. f_equal.
+        rewrite (tl_filter_remk_false _ kv (vv, ev)); auto.
+        * symmetry. apply tl_remk_absent. rewrite tl_assoc_filter by exact Hn. now rewrite Ha.
+        * simpl. destruct (Z.ltb_spec now ev); [lia|reflexivity].
+      + right. auto.
+  Qed.
+
+  Lemma tlb_ins_evict_live : forall u t (s : tl K V) k v a now e s', tl_inv u t s ->
+      tl_ins s k v a now e = (s', true) ->
+      assoc k (tl_lru s) = None -> length (tl_lru s) = tl_cap s ->
+      (forall k1 v1 e1, assoc k1 (tl_lru s) = Some (v1, e1) -> (now < e1)%Z) ->
+      exists kv x r, tl_lru s = (kv, x) :: r /\ tl_lru s' = remk kv (tl_lru s) ++ [(k, (v, e))].
+  Proof.
+    intros u t s k v a now e s' Hi Hins Ha Hlen Hnd.
+    destruct (tl_ins_cases _ _ _ _ _ _ _ _ _ _ Hi Hins)
+      as [(Hb & _)|[(_ & _ & v0 & e0 & Ha0 & _)|[(_ & _ & _ & Hlt & _)|
+          (_ & _ & _ & _ & kv & vv & ev & Hs' & Hkv & Hor)]]].
+    - discriminate.
+    - congruence.
+    - lia.
+    - destruct Hor as [Hle|[(x & r & Hhead) _]].
+      + apply Hnd in Hkv. lia.
+      + exists kv, x, r. split; [exact Hhead|]. subst s'. reflexivity.
+  Qed.
+
+  Lemma tlb_ins_evict_pair : forall u t now (s1 s2 : tl K V) k v a e s1' s2',
+      tl_sim u t now s1 s2 ->
+      tl_ins s1 k v a now e = (s1', true) -> tl_ins s2 k v a now e = (s2', true) ->
+      assoc k (tl_lru s1) = None -> length (tl_lru s1) = tl_cap s1 ->
+      (forall k1 v1 e1, assoc k1 (tl_lru s1) = Some (v1, e1) -> (now < e1)%Z) ->
+      tl_core now s1' = tl_core now s2'.
+  Proof.
+    intros u t now s1 s2 k v a e s1' s2' Hsim Hins1 Hins2 Ha Hlen Hnd.
+    pose proof (tlb_full_live_eq u t now s1 s2 Hsim Hlen Hnd) as Hl.
+    destruct Hsim as (Hi1 & Hi2 & Hc & _ & _).
+    destruct (tlb_ins_evict_live u t s1 k v a now e s1' Hi1 Hins1 Ha Hlen Hnd)
+      as (kv1 & x1 & r1 & Hh1 & Hs1).
+    assert (Ha2 : assoc k (tl_lru s2) = None) by (rewrite Hl; exact Ha).
+    assert (Hlen2 : length (tl_lru s2) = tl_cap s2) by (rewrite Hl; congruence).
+    assert (Hnd2 : forall k1 v1 e1, assoc k1 (tl_lru s2) = Some (v1, e1) -> (now < e1)%Z)
+      by (rewrite Hl; exact Hnd).
+    destruct (tlb_ins_evict_live u t s2 k v a now e s2' Hi2 Hins2 Ha2 Hlen2 Hnd2)
+      as (kv2 & x2 & r2 & Hh2 & Hs2).
+    assert (Ekv : kv2 = kv1) by congruence.
+    unfold tl_core. rewrite Hs1, Hs2, Hl, Ekv. reflexivity.
+  Qed.
+
+  Lemma tlb_ins_pair : forall u t now (s1 s2 : tl K V) k v a e s1' b1 s2' b2,
+      tl_sim u t now s1 s2 ->
+      tl_ins s1 k v a now e = (s1', b1) -> tl_ins s2 k v a now e = (s2', b2) ->
+      (b1 = b2 /\ tl_core now s1' = tl_core now s2') \/
+      (a_ins a = false /\ (dead_in s1 now k \/ dead_in s2 now k)).
+  Proof.
+    intros u t now s1 s2 k v a e s1' b1 s2' b2 Hsim Hins1 Hins2.
+    assert (Hres : b1 = b2 \/ (a_ins a = false /\ (dead_in s1 now k \/ dead_in s2 now k))).
+    { pose proof (tlb_ins_result _ _ _ _ _ _ _ _ Hins1) as Hb1.
+      pose proof (tlb_ins_result _ _ _ _ _ _ _ _ Hins2) as Hb2.
+      pose proof (tlb_sim_livek u t now s1 s2 k Hsim) as Hlk. unfold tl_livek in Hlk.
+      unfold dead_in.
+      destruct (assoc k (tl_lru s1)) as [[v1 e1]|] eqn:Ha1;
+        destruct (assoc k (tl_lru s2)) as [[v2 e2]|] eqn:Ha2.
+      - destruct (Z.ltb_spec now e1) as [L1|D1]; destruct (Z.ltb_spec now e2) as [L2|D2];
+          try discriminate.
+        + left. assert (e1 = e2) by congruence. subst. reflexivity.
+        + left. rewrite (proj2 (Z.leb_le e1 now) D1) in Hb1.
+          rewrite (proj2 (Z.leb_le e2 now) D2) in Hb2. congruence.
+      - destruct (Z.ltb_spec now e1) as [L1|D1]; [discriminate|].
+        rewrite (proj2 (Z.leb_le e1 now) D1) in Hb1.
+        destruct (a_ins a) eqn:Hai.
+        + left. rewrite orb_true_r in Hb1. congruence.
+        + right. split; [reflexivity|]. left. exists v1, e1. auto.
+      - destruct (Z.ltb_spec now e2) as [L2|D2]; [discriminate|].
+        rewrite (proj2 (Z.leb_le e2 now) D2) in Hb2.
+        destruct (a_ins a) eqn:Hai.
+        + left. rewrite orb_true_r in Hb2. congruence.
+        + right. split; [reflexivity|]. right. exists v2, e2. auto.
+      - left. congruence. }
+    destruct Hres as [Hbb|Hex]; [left|right; exact Hex].
+    subst b2. split; [reflexivity|].
+    pose proof Hsim as (Hi1 & Hi2 & Hc & _ & Hcore).
+    destruct b1.
+    - destruct (tlb_ins_true u t s1 k v a now e s1' Hi1 Hins1) as [N1|(A1 & L1 & D1)].
+      + destruct (tlb_ins_true u t s2 k v a now e s2' Hi2 Hins2) as [N2|(A2 & L2 & D2)].
+        * rewrite N1, N2, Hcore. reflexivity.
+        * symmetry.
+          exact (tlb_ins_evict_pair u t now s2 s1 k v a e s2' s1'
+                   (tlb_sim_sym u t now s1 s2 Hsim) Hins2 Hins1 A2 L2 D2).
+      + exact (tlb_ins_evict_pair u t now s1 s2 k v a e s1' s2' Hsim Hins1 Hins2 A1 L1 D1).
+    - apply tlb_ins_false in Hins1. apply tlb_ins_false in Hins2. subst. exact Hcore.
+  Qed.
+
+  (* ---- find ---- *)
+  Lemma tlb_find_one : forall u t (s : tl K V) k pk now s' r, tl_inv u t s ->
+      tl_find s k pk now = (s', r) ->
+      r = match tl_livek now s k with Some (v, _) => Some v | None => None end /\
+      tl_core now s' =
+        match tl_livek now s k with
+        | Some (v, e) => if pk then tl_core now s else remk k (tl_core now s) ++ [(k, (v, e))]
+        | None => tl_core now s
+        end.
+  Proof.
+    intros u t s k pk now s' r Hi Hf. pose proof Hi as (_ & _ & Hn & _). unfold tl_livek.
+    destruct (tl_find_cases _ _ _ _ _ _ Hf)
+      as [(Ha & Hs' & Hr)|[(v & e & Ha & Hlt & Hr & Hs')|(v & e & Ha & Hle & Hr & Hs')]];
+      subst; rewrite Ha.
+    - split; reflexivity.
+    - destruct (Z.ltb_spec now e) as [_|Hc]; [|lia]. split; [reflexivity|].
+      destruct pk; [reflexivity|].
+      unfold tl_core, tl_with. cbn [tl_lru]. rewrite filter_app, tlb_filter_remk. f_equal.
+      simpl. destruct (Z.ltb_spec now e); [reflexivity|lia].
+    - destruct (Z.ltb_spec now e) as [Hc|_]; [lia|]. split; [reflexivity|].
+      unfold tl_core, tl_erase_key, tl_with. cbn [tl_lru].
+      apply (tl_filter_remk_false _ k (v, e)); auto.
+      simpl. destruct (Z.ltb_spec now e); [lia|reflexivity].
+  Qed.
+
+  (* ---- erase ---- *)
+  Lemma tlb_erase_one : forall u t now (s : tl K V) k s' b, tl_inv u t s ->
+      tl_erase s k = (s', b) ->
+      b = (match assoc k (tl_lru s) with Some _ => true | None => false end) /\
+      tl_core now s' = remk k (tl_core now s).
+  Proof.
+    intros u t now s k s' b Hi He. unfold tl_erase in He.
+    destruct (assoc k (tl_lru s)) as [x|] eqn:Ha; injection He as E1 E2; rewrite <- E1, <- E2.
+    - split; [reflexivity|]. apply tlb_core_erase_key.
+    - split; [reflexivity|]. symmetry. apply (tlb_core_not_live u t now s k Hi).
+      unfold tl_livek. now rewrite Ha.
+  Qed.
+
+  (* ---- configured TTL after a step ---- *)
+  Lemma tlb_step_ttl : forall (s1 s2 : tl K V) o now rnd s1' r1 s2' r2,
+      tl_uniform s1 = tl_uniform s2 -> tl_ttl s1 = tl_ttl s2 ->
+      tl_step s1 o now rnd = (s1', r1) -> tl_step s2 o now rnd = (s2', r2) ->
+      tl_ttl s1' = tl_ttl s2'.
+  Proof.
+    intros s1 s2 o now rnd s1' r1 s2' r2 Hu Ht H1 H2.
+    assert (Hcases : (exists d, o = UpdateTtl d) \/ o = Clear \/
+                     ((forall d, o <> UpdateTtl d) /\ o <> Clear)).
+    { destruct o; try (right; right; split; [intros d0; discriminate|discriminate]).
+      - left. eexists. reflexivity.
+      - right. left. reflexivity. }
+    destruct Hcases as [[d E]|[E|[N1 N2]]].
+    - subst o. simpl in H1, H2. rewrite <- Hu in H2.
+      destruct (tl_uniform s1); inversion H1; inversion H2; subst; simpl; auto.
+    - subst o. simpl in H1, H2. rewrite <- Hu in H2.
+      destruct (tl_uniform s1); inversion H1; inversion H2; subst; simpl; auto.
+    - rewrite (tl_ttl_frame _ _ _ _ _ _ H1 N1 N2), (tl_ttl_frame _ _ _ _ _ _ H2 N1 N2). exact Ht.
+  Qed.
+
+  Lemma tlb_sim_after : forall u t now (s1 s2 : tl K V) o rnd s1' r1 s2' r2,
+      tl_sim u t now s1 s2 -> single o = true ->
+      tl_step s1 o now rnd = (s1', r1) -> tl_step s2 o now rnd = (s2', r2) ->
+      tl_core now s1' = tl_core now s2' -> tl_sim u now now s1' s2'.
+  Proof.
+    intros u t now s1 s2 o rnd s1' r1 s2' r2 (Hi1 & Hi2 & Hc & Httl & Hcore) Hs H1 H2 Hcore'.
+    destruct (tl_step_inv u t s1 o now rnd s1' r1 Hi1 Hs H1) as [Hi1' Hc1].
+    destruct (tl_step_inv u t s2 o now rnd s2' r2 Hi2 Hs H2) as [Hi2' Hc2].
+    unfold tl_sim. tl_splits; auto.
+    - congruence.
+    - eapply tlb_step_ttl; [|exact Httl|exact H1|exact H2].
+      destruct Hi1 as (U1 & _). destruct Hi2 as (U2 & _). congruence.
+  Qed.
+
+  (* ------------------------------------------------------------------------- *)
+  (* the theorems                                                               *)
+  (* ------------------------------------------------------------------------- *)
+
   (* a lookup that reaps an expired entry leads to a related state *)
   Theorem tl_reap_related : forall u t now (s : tl K V) k,
       tl_inv u t s -> dead_in s now k -> tl_sim u t now s (tl_erase_key s k).
-  Admitted.
+  Proof.
+    intros u t now s k Hi (v & e & Ha & Hle). unfold tl_sim. tl_splits; auto.
+    - now apply (tl_inv_erase_key u t).
+    - rewrite tlb_core_erase_key. symmetry. apply (tlb_core_not_live u t now s k Hi).
+      unfold tl_livek. rewrite Ha. destruct (Z.ltb_spec now e); [lia|reflexivity].
+  Qed.
 
   Theorem tl_sim_refl : forall u t now (s : tl K V), tl_inv u t s -> tl_sim u t now s s.
-  Admitted.
+  Proof. intros u t now s Hi. unfold tl_sim. tl_splits; auto. Qed.
 
   (* relatedness survives the passage of time *)
   Theorem tl_sim_later : forall u t now now' (s1 s2 : tl K V),
       tl_sim u t now s1 s2 -> (now <= now')%Z -> tl_sim u t now' s1 s2.
-  Admitted.
+  Proof.
+    intros u t now now' s1 s2 (Hi1 & Hi2 & Hc & Ht & Hcore) Hle. unfold tl_sim. tl_splits; auto.
+    unfold tl_core in *.
+    rewrite <- (tlb_filter_later now now' (tl_lru s1) Hle).
+    rewrite <- (tlb_filter_later now now' (tl_lru s2) Hle).
+    now rewrite Hcore.
+  Qed.
 
   (* the bisimulation step *)
   Theorem tl_reaping_unobservable : forall u t now (s1 s2 : tl K V) o rnd s1' r1 s2' r2,
@@ -55,5 +372,85 @@ Section TlBisim.
       tl_step s1 o now rnd = (s1', r1) -> tl_step s2 o now rnd = (s2', r2) ->
       (~ result_excepted s1 s2 now o -> r1 = r2) /\
       (~ effect_excepted s1 s2 now o -> tl_sim u now now s1' s2').
-  Admitted.
+  Proof.
+    intros u t now s1 s2 o rnd s1' r1 s2' r2 Hsim Ht Hs H1 H2.
+    assert (Hgoal : (~ result_excepted s1 s2 now o -> r1 = r2) /\
+                    (~ effect_excepted s1 s2 now o -> tl_core now s1' = tl_core now s2')).
+    { pose proof Hsim as (Hi1 & Hi2 & Hc & Httl & Hcore).
+      assert (Hu : tl_uniform s2 = tl_uniform s1).
+      { destruct Hi1 as (U1 & _). destruct Hi2 as (U2 & _). congruence. }
+      destruct o; simpl in Hs; try discriminate; simpl in H1, H2.
+      - (* Insert *)
+        rewrite Hu, <- Httl in H2.
+        destruct (tl_ins s1 k v a now (now + ms (if tl_uniform s1 then tl_ttl s1 else ttl)))
+          as [x1 b1] eqn:Hins1.
+        destruct (tl_ins s2 k v a now (now + ms (if tl_uniform s1 then tl_ttl s1 else ttl)))
+          as [x2 b2] eqn:Hins2.
+        inversion H1; subst; clear H1. inversion H2; subst; clear H2.
+        destruct (tlb_ins_pair u t now s1 s2 k v a _ _ _ _ _ Hsim Hins1 Hins2)
+          as [[Hb Hco]|Hex].
+        + subst. split; intros _; [reflexivity|exact Hco].
+        + simpl. split; intros Hn; exfalso; apply Hn; exact Hex.
+      - (* Erase *)
+        destruct (tl_erase s1 k) as [x1 b1] eqn:He1. destruct (tl_erase s2 k) as [x2 b2] eqn:He2.
+        inversion H1; subst; clear H1. inversion H2; subst; clear H2.
+        destruct (tlb_erase_one u t now s1 k _ _ Hi1 He1) as [Hb1 Hc1].
+        destruct (tlb_erase_one u t now s2 k _ _ Hi2 He2) as [Hb2 Hc2].
+        split.
+        + simpl. intros Hn.
+          pose proof (tlb_sim_livek u t now s1 s2 k Hsim) as Hlk. unfold tl_livek in Hlk.
+          unfold dead_in in Hn.
+          destruct (assoc k (tl_lru s1)) as [[v1 e1]|] eqn:Ha1;
+            destruct (assoc k (tl_lru s2)) as [[v2 e2]|] eqn:Ha2; subst; try reflexivity.
+          * destruct (Z.ltb_spec now e1) as [L1|D1]; [discriminate|].
+            exfalso. apply Hn. left. exists v1, e1. auto.
+          * destruct (Z.ltb_spec now e2) as [L2|D2]; [discriminate|].
+            exfalso. apply Hn. right. exists v2, e2. auto.
+        + intros _. rewrite Hc1, Hc2, Hcore. reflexivity.
+      - (* Find *)
+        destruct (tl_find s1 k peek now) as [x1 q1] eqn:Hf1.
+        destruct (tl_find s2 k peek now) as [x2 q2] eqn:Hf2.
+        inversion H1; subst; clear H1. inversion H2; subst; clear H2.
+        destruct (tlb_find_one u t s1 k peek now _ _ Hi1 Hf1) as [Hr1 Hc1].
+        destruct (tlb_find_one u t s2 k peek now _ _ Hi2 Hf2) as [Hr2 Hc2].
+        rewrite (tlb_sim_livek u t now s1 s2 k Hsim) in Hr1, Hc1.
+        split; intros _; [congruence|]. rewrite Hc1, Hc2, Hcore. reflexivity.
+      - (* FindUse *)
+        inversion H1; inversion H2; subst. split; intros _; [reflexivity|exact Hcore].
+      - (* DynAge *)
+        inversion H1; inversion H2; subst. split; intros _; [reflexivity|exact Hcore].
+      - (* UpdateTtl *)
+        rewrite Hu in H2.
+        destruct (tl_uniform s1); inversion H1; inversion H2; subst;
+          (split; intros _; [reflexivity|exact Hcore]).
+      - (* Clear *)
+        rewrite Hu in H2.
+        destruct (tl_uniform s1); inversion H1; inversion H2; subst;
+          (split; intros _; [reflexivity|]); [reflexivity|exact Hcore].
+      - (* Clean *)
+        destruct (tl_clean s1 now) as [x1 n1] eqn:Hc1. destruct (tl_clean s2 now) as [x2 n2] eqn:Hc2.
+        inversion H1; subst; clear H1. inversion H2; subst; clear H2.
+        destruct (tl_clean_exact u t s1 now _ _ Hi1 Ht Hc1) as (_ & Hl1 & _).
+        destruct (tl_clean_exact u t s2 now _ _ Hi2 Ht Hc2) as (_ & Hl2 & _).
+        split.
+        + simpl. intros Hn. exfalso. apply Hn. exact I.
+        + intros _. unfold tl_core in *. rewrite Hl1, Hl2, Hcore. reflexivity.
+      - (* Size *)
+        inversion H1; inversion H2; subst. split.
+        + simpl. intros Hn. exfalso. apply Hn. exact I.
+        + intros _. exact Hcore.
+      - (* Empty *)
+        inversion H1; inversion H2; subst. split.
+        + simpl. intros Hn. exfalso. apply Hn. exact I.
+        + intros _. exact Hcore.
+      - (* Capacity *)
+        inversion H1; inversion H2; subst. split; intros _; [congruence|exact Hcore]. }
+    destruct Hgoal as [Hr Hco]. split; [exact Hr|].
+    intros Hne. eapply tlb_sim_after; eauto.
+  Qed.
 End TlBisim.
+
+Print Assumptions tl_reap_related.
+Print Assumptions tl_sim_refl.
+Print Assumptions tl_sim_later.
+Print Assumptions tl_reaping_unobservable.
